@@ -2182,3 +2182,5 @@ for _p in ("C10", "C11", "C12", "C16"):
     PROPS[_p]["fams"] = PROPS[_p]["fams"] + [("fam_frag_numeric", 24, 400)]
 PROPS["C15"]["fams"] = PROPS["C15"]["fams"] + [("fam_extreme_ts", 60, 1500)]
 PROPS["C12"]["fams"] = PROPS["C12"]["fams"] + [("fam_reject_matrix", 120, 2000)]
+for _p in ("C12", "C04", "C05"):
+    PROPS[_p]["fams"] = PROPS[_p]["fams"] + [("fam_audio_defects", 1, 4)]
